@@ -70,7 +70,9 @@ def lean_sources():
         for f in files:
             if f.endswith(".lean"):
                 res.append(os.path.join(base, f))
-    res.append(os.path.join(LEAN_DIR, "Driver.lean"))
+    for f in sorted(os.listdir(os.path.join(LEAN_DIR, "Main"))):
+        if f.endswith(".lean"):
+            res.append(os.path.join(LEAN_DIR, "Main", f))
     return sorted(res)
 
 
@@ -133,6 +135,9 @@ class Check:
         os.makedirs(os.path.join(ROOT, "replays"), exist_ok=True)
         self.known = self._load_known()
 
+    def exe_name(self):
+        return "drv_" + self.pid.lower()
+
     # ------------------------------------------------------------------ known findings
     def _load_known(self):
         p = os.path.join(ROOT, "known_findings.json")
@@ -155,7 +160,7 @@ class Check:
         grep forbidden tokens. Records obligations/discharged."""
         modules = modules or [f"PrecondVerif.Props.{self.pid}"]
         props_file = os.path.join(LEAN_DIR, "PrecondVerif", "Props", f"{self.pid}.lean")
-        cmd = ["lake", "build"] + modules + ["driver"]
+        cmd = ["lake", "build"] + modules + [self.exe_name()]
         self.cov["checker_cmd"] = "cd lean && " + " ".join(cmd) + " && lake env lean .work/audit_%s.lean (#print axioms) [+ leanchecker in thorough tier]" % self.pid
         rc, out, err = run_cmd(cmd, cwd=LEAN_DIR, timeout=3000)
         if rc != 0:
@@ -210,9 +215,9 @@ class Check:
     # ------------------------------------------------------------------ driver
     def driver(self, requests, timeout=1800):
         """Send a list of JSON-able requests through the compiled Lean driver; returns list of replies."""
-        exe = os.path.join(LEAN_DIR, ".lake", "build", "bin", "driver")
+        exe = os.path.join(LEAN_DIR, ".lake", "build", "bin", self.exe_name())
         if not os.path.exists(exe):
-            rc, out, err = run_cmd(["lake", "build", "driver"], cwd=LEAN_DIR, timeout=3000)
+            rc, out, err = run_cmd(["lake", "build", self.exe_name()], cwd=LEAN_DIR, timeout=3000)
             if rc != 0:
                 raise InfraError("driver build failed: " + (out + err)[-2000:])
         text = "\n".join(json.dumps(r, separators=(",", ":")) for r in requests) + "\n"
